@@ -217,6 +217,140 @@ func pinnedVariant(v int) pin.PinnedSettings {
 	return p
 }
 
+// nSettingsFields / nPinnedFields: the persisted columns a single-field update can change (DDNS columns
+// need a reachable provider and stay at their defaults).
+const (
+	nSettingsFields = 19
+	nPinnedFields   = 10
+)
+
+// patchSettings changes exactly one field of the host settings.
+func patchSettings(s *settings.Settings, f int, v uint64) {
+	switch f {
+	case 0:
+		s.AcceptingContracts = v%2 == 1
+	case 1:
+		s.NetAddress = fmt.Sprintf("h%d.example", v)
+	case 2:
+		s.MaxContractDuration = 1000 + v
+	case 3:
+		s.WindowSize = 100 + v
+	case 4:
+		s.ContractPrice = cur(1000 + v)
+	case 5:
+		s.BaseRPCPrice = cur(10 + v)
+	case 6:
+		s.SectorAccessPrice = cur(50 + v)
+	case 7:
+		s.CollateralMultiplier = 1 + float64(v)/4
+	case 8:
+		s.MaxCollateral = cur(1_000_000 + v)
+	case 9:
+		s.StoragePrice = cur(20 + v)
+	case 10:
+		s.EgressPrice = cur(40 + v)
+	case 11:
+		s.IngressPrice = cur(30 + v)
+	case 12:
+		s.PriceTableValidity = time.Duration(10+v) * time.Minute
+	case 13:
+		s.MaxRegistryEntries = 2 + v%5
+	case 14:
+		s.AccountExpiry = time.Duration(24+v) * time.Hour
+	case 15:
+		s.MaxAccountBalance = cur(5_000_000 + v)
+	case 16:
+		s.IngressLimit = 1000 * (v % 7)
+	case 17:
+		s.EgressLimit = 1000 * (v % 5)
+	case 18:
+		s.SectorCacheSize = uint32(v % 9)
+	}
+}
+
+// settingsField renders one field (the generator picks a value different from the current one).
+func settingsField(s settings.Settings, f int) string {
+	before := s
+	_ = before
+	switch f {
+	case 0:
+		return fmt.Sprint(s.AcceptingContracts)
+	case 1:
+		return s.NetAddress
+	case 2:
+		return fmt.Sprint(s.MaxContractDuration)
+	case 3:
+		return fmt.Sprint(s.WindowSize)
+	case 4:
+		return s.ContractPrice.String()
+	case 5:
+		return s.BaseRPCPrice.String()
+	case 6:
+		return s.SectorAccessPrice.String()
+	case 7:
+		return fmt.Sprint(s.CollateralMultiplier)
+	case 8:
+		return s.MaxCollateral.String()
+	case 9:
+		return s.StoragePrice.String()
+	case 10:
+		return s.EgressPrice.String()
+	case 11:
+		return s.IngressPrice.String()
+	case 12:
+		return fmt.Sprint(s.PriceTableValidity)
+	case 13:
+		return fmt.Sprint(s.MaxRegistryEntries)
+	case 14:
+		return fmt.Sprint(s.AccountExpiry)
+	case 15:
+		return s.MaxAccountBalance.String()
+	case 16:
+		return fmt.Sprint(s.IngressLimit)
+	case 17:
+		return fmt.Sprint(s.EgressLimit)
+	case 18:
+		return fmt.Sprint(s.SectorCacheSize)
+	}
+	return ""
+}
+
+// pinnedBase: every value positive (Update refuses a pinned field with a non-positive value), nothing pinned.
+func pinnedBase() pin.PinnedSettings {
+	return pin.PinnedSettings{Currency: "usd", Threshold: 0.05,
+		Storage: pin.Pin{Value: 1.5}, Ingress: pin.Pin{Value: 2.5}, Egress: pin.Pin{Value: 3.5}, MaxCollateral: pin.Pin{Value: 4.5}}
+}
+
+// patchPinned changes exactly one field of the pinned settings.
+func patchPinned(p *pin.PinnedSettings, f int, v uint64) {
+	pins := []*pin.Pin{&p.Storage, &p.Ingress, &p.Egress, &p.MaxCollateral}
+	switch {
+	case f == 0:
+		p.Currency = []string{"usd", "eur", "jpy"}[v%3]
+	case f == 1:
+		p.Threshold = float64(1+v%50) / 100
+	case f >= 2 && f < 10 && f%2 == 0:
+		pins[(f-2)/2].Pinned = v%2 == 1
+	case f >= 2 && f < 10:
+		pins[(f-2)/2].Value = 1 + float64(v%40)/2
+	}
+}
+
+func pinnedField(p pin.PinnedSettings, f int) string {
+	pins := []pin.Pin{p.Storage, p.Ingress, p.Egress, p.MaxCollateral}
+	switch {
+	case f == 0:
+		return p.Currency
+	case f == 1:
+		return fmt.Sprint(p.Threshold)
+	case f >= 2 && f < 10 && f%2 == 0:
+		return fmt.Sprint(pins[(f-2)/2].Pinned)
+	case f >= 2 && f < 10:
+		return fmt.Sprint(pins[(f-2)/2].Value)
+	}
+	return ""
+}
+
 func utxo(u int, fork int, maturity uint64) types.SiacoinElement {
 	var id types.SiacoinOutputID
 	binary.LittleEndian.PutUint64(id[:8], uint64(u))
@@ -626,15 +760,60 @@ func buildOp(p vhlib.ParsedLine, b *book) (*opDef, error) {
 		o.run = func(sd *side) error { return sd.st.SetRegistryValue(entry, exp) }
 	case "UpdateSettings":
 		v := p.Int("v")
+		if _, ok := p.Args["f"]; ok { // single-field update on top of what the store holds
+			f, val := p.Int("f"), p.U64("val")
+			o.run = func(sd *side) error {
+				cur, err := sd.st.Settings()
+				if err != nil {
+					cur = settings.DefaultSettings
+				}
+				patchSettings(&cur, f, val)
+				return sd.st.UpdateSettings(cur)
+			}
+			break
+		}
 		o.run = func(sd *side) error { return sd.st.UpdateSettings(settingsVariant(v)) }
 	case "S.UpdateSettings":
 		v := p.Int("v")
+		if _, ok := p.Args["f"]; ok { // what the API does: read the current settings, change one field, update
+			f, val := p.Int("f"), p.U64("val")
+			o.run = func(sd *side) error {
+				cur := sd.mgr.sm.Settings()
+				patchSettings(&cur, f, val)
+				return sd.mgr.sm.UpdateSettings(cur)
+			}
+			break
+		}
 		o.run = func(sd *side) error { return sd.mgr.sm.UpdateSettings(settingsVariant(v)) }
 	case "UpdatePinnedSettings":
 		v := p.Int("v")
+		if _, ok := p.Args["f"]; ok {
+			f, val := p.Int("f"), p.U64("val")
+			o.run = func(sd *side) error {
+				cur, err := sd.st.PinnedSettings(context.Background())
+				if err != nil || cur.Storage.Value == 0 {
+					cur = pinnedBase()
+				}
+				patchPinned(&cur, f, val)
+				return sd.st.UpdatePinnedSettings(context.Background(), cur)
+			}
+			break
+		}
 		o.run = func(sd *side) error { return sd.st.UpdatePinnedSettings(context.Background(), pinnedVariant(v)) }
 	case "P.Update":
 		v := p.Int("v")
+		if _, ok := p.Args["f"]; ok {
+			f, val := p.Int("f"), p.U64("val")
+			o.run = func(sd *side) error {
+				cur := sd.mgr.pm.Pinned(context.Background())
+				if cur.Storage.Value == 0 {
+					cur = pinnedBase()
+				}
+				patchPinned(&cur, f, val)
+				return sd.mgr.pm.Update(context.Background(), cur)
+			}
+			break
+		}
 		o.run = func(sd *side) error { return sd.mgr.pm.Update(context.Background(), pinnedVariant(v)) }
 	case "UpdateLastAnnouncement":
 		h := p.U64("h")
